@@ -238,6 +238,9 @@ def run(check, ctx):
     check.floor("D", 8)
     from . import c04_extra
     c04_extra.run(check, ctx)
+    # EdDSA verification ends in a point comparison: the native point layer on the cases of the group law
+    from . import c_ed
+    c_ed.ed_tables(check, ctx, groups=("points",))
     check.undecided.append("accepted signatures are exactly the standard's valid "
                            "ones (curve and modular arithmetic); byte-exact "
                            "deterministic outputs; RFC 6979 loop arithmetic")
